@@ -664,10 +664,24 @@ func scriptedProgram() *Program {
 	}}
 }
 
+// safeChain: a panic inside the ledger (it has no recover of its own) is reported as a failing
+// input instead of killing the run; no further chain is started after one.
+func safeChain(c *hx.Ctx, p *Program) bool {
+	panicked, msg := hx.Recover(func() { doChain(c, p) })
+	if panicked {
+		c.Fail("chain:panic", "executing a block of deploy / invoke transactions does not panic", p, msg, nil)
+	}
+	return !panicked
+}
+
 func runChains(c *hx.Ctx) {
-	doChain(c, scriptedProgram())
+	if !safeChain(c, scriptedProgram()) {
+		return
+	}
 	n := c.N(7, 60)
 	for i := 0; i < n; i++ {
-		doChain(c, genProgram(c))
+		if !safeChain(c, genProgram(c)) {
+			return
+		}
 	}
 }
